@@ -26,6 +26,9 @@ EXP_AX = [EM1 > z3.RealVal("0.3678"), EM1 < z3.RealVal("0.3679")]
 BIGE = z3.Real("EXP_MAXFLOAT")          # exp(max float):   only BIGE   > 1e30 is assumed
 SMALLE = z3.Real("EXP_MINUS_MAXFLOAT")  # exp(-max float):  only 0 < SMALLE < 1e-30 is assumed
 EXP_AX += [BIGE > z3.RealVal("1e30"), SMALLE > 0, SMALLE < z3.RealVal("1e-30")]
+EXPFUN = z3.Function("EXP", z3.RealSort(), z3.RealSort())
+_x = z3.Real("x!exp")
+EXP_AX += [z3.ForAll([_x], EXPFUN(_x) > 0)]
 AXIOMS = er.BIG_AX + EXP_AX
 
 
@@ -104,6 +107,11 @@ class Interp:
             if v.mode == "int" and mode == "lin": return lin(v.t)
             if v.mode == "bool" and mode == "lin":
                 return Val("lin", er.ite(v.t, er.const(1.0), er.const(0.0)))
+            if v.mode == "lin" and mode == "log":
+                # E = exp(v): known for the special values, an uninterpreted positive function otherwise
+                e = v.t
+                fe = ER(er.FIN, EXPFUN(e.v))
+                return logv(er.ite(e.nan, ER(er.NAN, 0), er.ite(e.ninf, er.const(0.0), er.ite(e.pinf, ER(er.PINF, 0), fe))))
             raise Unsupported(f"mode mismatch {v.mode} vs {mode}")
         if mode == "log": return logv(exp_const(v))
         if mode == "bool": return boolv(bool(v))
@@ -283,6 +291,11 @@ class Interp:
     def e_Compare(self, n):
         if len(n.ops) != 1: raise Unsupported(ast.unparse(n))
         a, b = self.eval(n.left), self.eval(n.comparators[0])
+        if isinstance(n.ops[0], (ast.Is, ast.IsNot)):
+            if a is None or b is None:
+                r = (a is None and b is None)
+                return r if isinstance(n.ops[0], ast.Is) else not r
+            raise Unsupported(ast.unparse(n))
         op = {ast.Lt: "lt", ast.LtE: "le", ast.Gt: "gt", ast.GtE: "ge", ast.Eq: "eq"}.get(type(n.ops[0]))
         if op is None: raise Unsupported(ast.unparse(n))
         if isinstance(a, Val) and a.mode == "int" or isinstance(b, Val) and b.mode == "int":
@@ -292,7 +305,10 @@ class Interp:
         return self.cmp(op, a, b)
 
     def e_IfExp(self, n):
-        c = self.truth(self.eval(n.test))
+        c0 = self.eval(n.test)
+        if isinstance(c0, bool):
+            return self.eval(n.body if c0 else n.orelse)
+        c = self.truth(c0)
         # evaluate both branches, but Python only raises in the branch taken
         r0 = len(self.raises)
         a = self.eval(n.body)
@@ -336,7 +352,43 @@ class Interp:
             if f.id == "min" and len(args) == 2:
                 a, b = self._binary_num(args[0], args[1]); return Val("lin", er.py_min(a.t, b.t))
             if f.id == "float": return args[0]
+            if f.id == "copysign" and len(args) == 2:
+                # copysign(magnitude, sign-source); the sign of a zero is not tracked: fresh boolean for it
+                a, b = self._binary_num(args[0], args[1])
+                bneg = z3.If(b.t.zero(), b.t.zn, b.t.neg())
+                mag = er.abs_(a.t)
+                return Val("lin", er.ite(bneg, er.neg(mag), mag))
+            h = getattr(self, "helpers", {}).get(f.id)
+            if h is not None:
+                return self.inline_helper(h, args)
         raise Unsupported(f"call {ast.unparse(n)}")
+
+    def inline_helper(self, fdef, args):
+        """A module-level helper function of the same file (python float semantics)."""
+        body = [x for x in fdef.body if not (isinstance(x, ast.Expr) and isinstance(x.value, ast.Constant))]
+        sub = Interp(dict(zip([a.arg for a in fdef.args.args], args)))
+        sub.helpers = getattr(self, "helpers", {})
+        sub.py_division = True
+        if len(body) == 1 and isinstance(body[0], ast.Return):
+            r = sub.eval(body[0].value)
+        elif len(body) == 1 and isinstance(body[0], ast.Try):
+            # try: return A   except ZeroDivisionError: return B     ==  B where A would raise, else A
+            t = body[0]
+            if not (len(t.body) == 1 and isinstance(t.body[0], ast.Return) and len(t.handlers) == 1
+                    and ast.unparse(t.handlers[0].type) == "ZeroDivisionError"
+                    and len(t.handlers[0].body) == 1 and isinstance(t.handlers[0].body[0], ast.Return)):
+                raise Unsupported("helper with a try block of another shape")
+            a = sub.eval(t.body[0].value)
+            cond = z3.Or(*sub.raises) if sub.raises else z3.BoolVal(False)
+            sub.raises = []
+            sub2 = Interp(dict(sub.env)); sub2.helpers = sub.helpers; sub2.py_division = True
+            b = sub2.eval(t.handlers[0].body[0].value)
+            self.raises += [z3.And(cond, x) for x in sub2.raises]
+            return self.where(boolv(cond), b if isinstance(b, Val) else self._num(b), a)
+        else:
+            raise Unsupported(f"helper {fdef.name} is not a single return")
+        self.raises += sub.raises
+        return r
 
     def torch_fn(self, name, args, kw, node):
         if name in ("exp", "log", "log1p", "expm1", "abs", "relu", "isnan", "isinf", "logical_not"):
